@@ -553,6 +553,16 @@ class StartStageHandler(
                     stage.name,
                 )
                 fresh = self.repository.retrieve_stage(stage.id)
+                if fresh.status != WorkflowStatus.RUNNING:
+                    # The stage was taken out of our hands meanwhile (a
+                    # CancelStage landed between claim and plan commit): its
+                    # new status stands, committing the plan would revive it.
+                    logger.debug(
+                        "Stage %s is %s after the claim, dropping the plan",
+                        stage.name,
+                        fresh.status,
+                    )
+                    return
                 if not had_tasks_before_planning and fresh.tasks:
                     # Another worker took the stage over as a zombie (claimed, no
                     # tasks yet) and committed its own plan: that plan stands.
